@@ -336,14 +336,31 @@ func (p *Prog) indexStore(fn *ssa.Function, in ssa.Instruction, addr, val ssa.Va
 // Stores returns every store to the named field anywhere in the module.
 // typ is module-relative, e.g. "transports/obfs4.obfs4Conn".
 func (p *Prog) Stores(typ, field string) []*StoreSite {
-	return p.stores[FieldKey{typ, field}]
+	all := p.stores[FieldKey{typ, field}]
+	var out []*StoreSite
+	for _, s := range all {
+		if !blockInfeasible(s.Instr.Block()) {
+			out = append(out, s)
+		}
+	}
+	return out
+}
+
+func liveSites(all []*CallSite) []*CallSite {
+	var out []*CallSite
+	for _, s := range all {
+		if !blockInfeasible(s.Instr.Block()) {
+			out = append(out, s)
+		}
+	}
+	return out
 }
 
 // Sites returns the call sites (in module functions) of the callee id.
-func (p *Prog) Sites(id string) []*CallSite { return p.sites[M(id)] }
+func (p *Prog) Sites(id string) []*CallSite { return liveSites(p.sites[M(id)]) }
 
 // SitesOf returns the static call sites of a module function.
-func (p *Prog) SitesOf(fn *ssa.Function) []*CallSite { return p.fnSite[fn] }
+func (p *Prog) SitesOf(fn *ssa.Function) []*CallSite { return liveSites(p.fnSite[fn]) }
 
 // CallsIn lists the call instructions of fn (not of its closures) whose callee
 // id is one of ids.
@@ -354,6 +371,9 @@ func (p *Prog) CallsIn(fn *ssa.Function, ids ...string) []ssa.CallInstruction {
 		want[M(id)] = true
 	}
 	for _, b := range fn.Blocks {
+		if blockInfeasible(b) {
+			continue
+		}
 		for _, in := range b.Instrs {
 			if ci, ok := in.(ssa.CallInstruction); ok && want[p.CalleeID(ci.Common())] {
 				out = append(out, ci)
